@@ -815,6 +815,9 @@ func (a Activity) Format(s fmt.State, verb rune) {
 
 // ToActivity
 func ToActivity(it Item) (*Activity, error) {
+	if it == nil {
+		return nil, ErrorInvalidType[Activity](it)
+	}
 	switch i := it.(type) {
 	case *Activity:
 		return i, nil
